@@ -181,11 +181,42 @@ where F: BooleanFunction + BooleanFunctionQuant + FunctionSubst, for<'id> F::Man
     println!("{{\"found\":false,\"checked\":{}}}", checked);
 }
 
+/// all 3-variable functions alive, reorder to every permutation (and chains of two), check that every old handle
+/// keeps its truth table and that rebuilding the same function yields the same handle (canonicity after reordering)
+fn run_reorder<F, MR>(kind: &str, mk: impl Fn() -> (MR, Vec<F>))
+where F: BooleanFunction, for<'id> F::Manager<'id>: Manager + oxidd::HasWorkers, MR: ManagerRef, for<'id> F: Function<ManagerRef = MR, Manager<'id> = MR::Manager<'id>>,
+      for<'id> <F::Manager<'id> as Manager>::InnerNode: oxidd::HasLevel {
+    let perms: [[u32; 3]; 6] = [[0, 1, 2], [0, 2, 1], [1, 0, 2], [1, 2, 0], [2, 0, 1], [2, 1, 0]];
+    let mut checked = 0u64;
+    for p1 in perms { for p2 in perms {
+        let (mref, vars) = mk();
+        let all: Vec<F> = (0..=FULL).map(|t| build(&vars, t)).collect();
+        if std::env::var("WITNESS_TRACE").is_ok() { eprintln!("reorder {:?} then {:?}", p1, p2); }
+        mref.with_manager_exclusive(|m| oxidd_reorder::set_var_order(m, &p1));
+        mref.with_manager_exclusive(|m| oxidd_reorder::set_var_order(m, &p2));
+        for t in 0..=FULL {
+            checked += 1;
+            if table(&all[t as usize]) != t { fail(kind, "set_var_order (function preserved)", vec![("f".into(), bits(t)), ("order1".into(), format!("{:?}", p1)), ("order2".into(), format!("{:?}", p2))], bits(t), bits(table(&all[t as usize]))); }
+            let again = build(&vars, t);
+            if again != all[t as usize] { fail(kind, "set_var_order (canonicity: rebuilt function == old handle)", vec![("f".into(), bits(t)), ("order1".into(), format!("{:?}", p1)), ("order2".into(), format!("{:?}", p2))], "equal handles".into(), "different handles".into()); }
+        }
+    } }
+    println!("{{\"found\":false,\"checked\":{}}}", checked);
+}
+
 fn main() {
     let args: Vec<String> = std::env::args().collect();
     let (kind, group) = (args[1].as_str(), args[2].as_str());
     let _ = HashMap::<u32, u32>::new();
     match kind {
+        "bdd" if group == "reorder" => run_reorder("bdd", || {
+            let mref = oxidd::bdd::new_manager(1 << 16, 1 << 10, 1);
+            let vars: Vec<oxidd::bdd::BDDFunction> = mref.with_manager_exclusive(|m| m.add_vars(NV as u32).map(|v| oxidd::bdd::BDDFunction::var(m, v).unwrap()).collect());
+            (mref, vars) }),
+        "bcdd" if group == "reorder" => run_reorder("bcdd", || {
+            let mref = oxidd::bcdd::new_manager(1 << 16, 1 << 10, 1);
+            let vars: Vec<oxidd::bcdd::BCDDFunction> = mref.with_manager_exclusive(|m| m.add_vars(NV as u32).map(|v| oxidd::bcdd::BCDDFunction::var(m, v).unwrap()).collect());
+            (mref, vars) }),
         "bdd" => {
             let mref = oxidd::bdd::new_manager(1 << 16, 1 << 10, 1);
             let vars: Vec<oxidd::bdd::BDDFunction> = mref.with_manager_exclusive(|m| m.add_vars(NV as u32).map(|v| oxidd::bdd::BDDFunction::var(m, v).unwrap()).collect());
